@@ -235,8 +235,147 @@ def nested_harness(kind):
     return harness
 
 
+# ---- whole-value assignment from every kind of source object ---------------------------------------------------
+class Lax(HasTraits):
+    """holds containers of anything: a source of live trait containers with items that are invalid elsewhere"""
+    l = List()
+    d = Dict()
+    s = Set()
+    ll = List(List())
+
+
+class Strict(HasTraits):
+    l = List(Int, maxlen=4)
+    d = Dict(Str, Int)
+    s = Set(Int)
+    ll = List(List(Int, maxlen=2), maxlen=3)
+    dl = Dict(Str, List(Int, maxlen=2))
+
+
+INITIAL = {"l": lambda: [1, 2], "d": lambda: {"a": 1}, "s": lambda: {1, 2}, "ll": lambda: [[1], [2, 3]],
+           "dl": lambda: {"a": [1], "b": [2, 3]}}
+SOURCES = ["self", "copy", "deepcopy", "pickle", "other-owner", "lax-owner", "inner", "plain"]
+
+
+def _valid_value(name, v):
+    import traits.trait_dict_object as tdo_
+    import traits.trait_set_object as tso_
+    if name == "l":
+        return isinstance(v, tlo.TraitListObject) and len(v) <= 4 and all(type(x) is int for x in v)
+    if name == "d":
+        return isinstance(v, tdo_.TraitDictObject) and all(type(k) is str and type(x) is int for k, x in v.items())
+    if name == "s":
+        return isinstance(v, tso_.TraitSetObject) and all(type(x) is int for x in v)
+    inner_ok = lambda i: isinstance(i, tlo.TraitListObject) and len(i) <= 2 and all(type(x) is int for x in i)
+    if name == "ll":
+        return isinstance(v, tlo.TraitListObject) and len(v) <= 3 and all(inner_ok(i) for i in v)
+    return isinstance(v, tdo_.TraitDictObject) and all(type(k) is str and inner_ok(i) for k, i in v.items())
+
+
+def _add_invalid(name, c, via_base):
+    """put an item that is invalid for Strict.<name> into container c (via_base: through the built-in base class method, i.e.
+    behind the back of any validation - only ever done to detached copies)"""
+    if name in ("l",):
+        (list.append if via_base else type(c).append)(c, "bad")
+    elif name == "d":
+        (dict.__setitem__ if via_base else type(c).__setitem__)(c, "k", "bad")
+    elif name == "s":
+        (set.add if via_base else type(c).add)(c, "bad")
+    elif name == "ll":
+        (list.append if via_base else type(c).append)(c, ["bad"])
+    else:
+        (dict.__setitem__ if via_base else type(c).__setitem__)(c, "k", ["bad"])
+
+
+def assign_harness(name):
+    import copy as _copy
+    import pickle as _pickle
+
+    def harness(ex):
+        o = Strict(**{name: INITIAL[name]()})
+        log = []
+        o.on_trait_change(lambda: log.append("items"), name + "_items")
+        src_kind = SOURCES[ex.choice("source", len(SOURCES))]
+        cur = getattr(o, name)
+        detached = False
+        if src_kind == "self":
+            src = cur
+        elif src_kind == "copy":
+            src, detached = _copy.copy(cur), True
+        elif src_kind == "deepcopy":
+            src, detached = _copy.deepcopy(cur), True
+        elif src_kind == "pickle":
+            src, detached = _pickle.loads(_pickle.dumps(cur)), True
+        elif src_kind == "other-owner":
+            src = getattr(Strict(**{name: INITIAL[name]()}), name)
+        elif src_kind == "lax-owner":
+            if name == "dl":
+                return {"skipped": True}
+            lax = Lax(**{name: INITIAL[name]()})
+            src = getattr(lax, name)
+            if ex.flag("lax_holds_invalid"):
+                _add_invalid(name, src, False)       # perfectly valid for the lax owner
+            ex.note("keep", lax)
+        elif src_kind == "inner":
+            if name not in ("ll", "dl"):
+                return {"skipped": True}
+            src = cur[0] if name == "ll" else cur["a"]          # an inner container: same owner, same trait name
+        else:
+            src = INITIAL[name]()
+        smuggled = False
+        if detached and ex.flag("smuggle_invalid_into_detached_copy"):
+            _add_invalid(name, src, True)
+            smuggled = True
+        before = repr(cur)
+        exc = None
+        try:
+            setattr(o, name, src)
+        except TraitError:
+            exc = "TraitError"
+        now = getattr(o, name)
+        ex.check(_valid_value(name, now), "after a whole-value assignment from any source the trait value is valid "
+                                          "(elements, inner containers, length bounds)")
+        if exc is not None:
+            ex.check(repr(now) == before and now is cur, "a rejected assignment changes nothing")
+        if smuggled:
+            ex.check(exc == "TraitError", "a container object that holds an invalid item is rejected whatever its class")
+        if src_kind in ("other-owner", "lax-owner") and exc is None:
+            ex.check(now is not src, "the value of another owner's trait is copied, not shared")
+        # the stored value is live: it still validates, at every level
+        exc2 = None
+        try:
+            _add_invalid(name, now, False)
+        except TraitError:
+            exc2 = "TraitError"
+        ex.check(exc2 == "TraitError" and _valid_value(name, getattr(o, name)), "the stored value still rejects an invalid item")
+        if name in ("ll", "dl") and len(now):
+            inner = now[0] if name == "ll" else list(now.values())[0]
+            if not isinstance(inner, list):
+                return {"source": src_kind, "exc": exc, "smuggled": smuggled}      # already reported above
+            exc3 = None
+            try:
+                inner.append("bad")
+            except TraitError:
+                exc3 = "TraitError"
+            ex.check(exc3 == "TraitError", "... and so do its inner containers")
+            exc4 = None
+            try:
+                inner.extend([7, 8, 9])
+            except TraitError:
+                exc4 = "TraitError"
+            ex.check(exc4 == "TraitError" and len(inner) <= 2, "... whose length bound still holds")
+        return {"source": src_kind, "exc": exc, "smuggled": smuggled}
+
+    return harness
+
+
 def obligations(tier, build):
     obs = []
+    for name in INITIAL:
+        obs.append(Obligation("assign-from/%s" % name, assign_harness(name),
+                              bounds={"trait": name, "sources": SOURCES, "items": "concrete",
+                                      "smuggled invalid item": "into detached copies only, through the built-in base class"},
+                              leverage="choice feasibility only (copy/pickle and the compiled Int validator are C boundaries)"))
     N = 3 if tier == "quick" else 5
     M = 2 if tier == "quick" else 3
     for n in range(N + 1):
